@@ -1405,7 +1405,8 @@ def _trace_sort_key(w):
             return int(s)
         except ValueError:
             return s
-    return [tryint(c) for c in re.split('([0-9]+)', w)]
+    # the name itself breaks ties such as "a1" vs "a01"
+    return ([tryint(c) for c in re.split('([0-9]+)', w)], w)
 
 
 class TraceStorage(Mapping):
